@@ -33,11 +33,11 @@ class Ctx:
                          note='public item not found (or ambiguous: %d hits)' % len(hits))
         return None
 
-    def entry(self, path, assume=None, abstract=None, args=None, gmap=None):
+    def entry(self, path, assume=None, abstract=None, args=None, gmap=None, symbolic_fns=False):
         """analyse an entry point; -> (evaluator, outcomes) or (None, None) with a violation recorded"""
         if path is None:
             return None, None
-        key = (path, repr(assume), repr(sorted((abstract or {}).items())), repr(args), repr(gmap))
+        key = (path, repr(assume), repr(sorted((abstract or {}).items())), repr(args), repr(gmap), symbolic_fns)
         if key in self.cache:
             return self.cache[key]
         if path not in self.fx.fns:
@@ -46,6 +46,7 @@ class Ctx:
             return None, None
         ev = sumeval.Ev(self.fx, axioms, max_depth=self.max_depth)
         ev.abstract = dict(abstract or {})
+        ev.symbolic_fns = symbolic_fns
         try:
             outs = ev.run_entry(path, args=args, assume=assume, gmap=gmap)
         except sumeval.Unprovable as e:
